@@ -20,6 +20,7 @@ import (
 	"github.com/Flowpack/prunner/definition"
 	"github.com/Flowpack/prunner/helper"
 	"github.com/Flowpack/prunner/taskctl"
+	"github.com/Flowpack/prunner/verifhook"
 )
 
 // PipelineRunner is the main data structure which is basically a runtime state "singleton"
@@ -80,6 +81,9 @@ func NewPipelineRunner(ctx context.Context, defs *definition.PipelinesDef, creat
 
 		go func() {
 			for {
+				if verifhook.Skip("persist.stop", pRunner, ctx) {
+					return
+				}
 				select {
 				case <-ctx.Done():
 					log.
@@ -195,6 +199,7 @@ var errJobAlreadyCompleted = errors.New("job is already completed")
 var ErrShuttingDown = errors.New("runner is shutting down")
 
 func (r *PipelineRunner) ScheduleAsync(pipeline string, opts ScheduleOpts) (*PipelineJob, error) {
+	verifhook.Yield("ScheduleAsync", r, pipeline)
 	r.mx.Lock()
 	defer r.mx.Unlock()
 
@@ -349,6 +354,7 @@ func buildPipelineGraph(id uuid.UUID, tasks jobTasks, vars map[string]interface{
 }
 
 func (r *PipelineRunner) ReadJob(id uuid.UUID, process func(j *PipelineJob)) error {
+	verifhook.Yield("ReadJob", r, id)
 	r.mx.RLock()
 	defer r.mx.RUnlock()
 
@@ -404,6 +410,7 @@ func (r *PipelineRunner) startJob(job *PipelineJob) {
 
 // HandleTaskChange will be called when the task state changes in the task runner
 func (r *PipelineRunner) HandleTaskChange(t *task.Task) {
+	verifhook.Yield("HandleTaskChange", r, t)
 	r.mx.Lock()
 	defer r.mx.Unlock()
 
@@ -460,6 +467,7 @@ func (r *PipelineRunner) HandleTaskChange(t *task.Task) {
 
 // HandleStageChange will be called when the stage state changes in the scheduler
 func (r *PipelineRunner) HandleStageChange(stage *scheduler.Stage) {
+	verifhook.Yield("HandleStageChange", r, stage)
 	r.mx.Lock()
 	defer r.mx.Unlock()
 
@@ -485,6 +493,7 @@ func (r *PipelineRunner) HandleStageChange(stage *scheduler.Stage) {
 }
 
 func (r *PipelineRunner) JobCompleted(id uuid.UUID, err error) {
+	verifhook.Yield("JobCompleted", r, id)
 	r.mx.Lock()
 	defer r.mx.Unlock()
 
@@ -547,6 +556,7 @@ func (r *PipelineRunner) startJobsOnWaitList(pipeline string) {
 // IterateJobs calls process for each job in a read lock.
 // It is not safe to reference the job outside of the process function.
 func (r *PipelineRunner) IterateJobs(process func(j *PipelineJob)) {
+	verifhook.Yield("IterateJobs", r)
 	r.mx.RLock()
 	defer r.mx.RUnlock()
 
@@ -563,6 +573,7 @@ type PipelineInfo struct {
 
 // ListPipelines lists pipelines with status information about each pipeline (is it running, is it schedulable)
 func (r *PipelineRunner) ListPipelines() []PipelineInfo {
+	verifhook.Yield("ListPipelines", r)
 	r.mx.RLock()
 	defer r.mx.RUnlock()
 
@@ -710,6 +721,7 @@ func (r *PipelineRunner) initialLoadFromStore() error {
 }
 
 func (r *PipelineRunner) SaveToStore() {
+	verifhook.Yield("SaveToStore", r)
 	r.wg.Add(1)
 	defer r.wg.Done()
 
@@ -808,12 +820,14 @@ func (r *PipelineRunner) Shutdown(ctx context.Context) error {
 			WithField("component", "runner").
 			Debugf("Shutting down, waiting for pending operations...")
 		// Wait for all running jobs to have called JobCompleted
+		verifhook.Yield("Shutdown.wait", r)
 		r.wg.Wait()
 
 		// Do a final save to include the state of recently completed jobs
 		r.SaveToStore()
 	}()
 
+	verifhook.Yield("Shutdown.begin", r)
 	r.mx.Lock()
 	r.isShuttingDown = true
 	// Cancel all jobs on wait list
@@ -832,6 +846,7 @@ func (r *PipelineRunner) Shutdown(ctx context.Context) error {
 
 	for {
 		// Poll pipelines to check for running jobs
+		verifhook.Yield("Shutdown.poll", r)
 		r.mx.RLock()
 		hasRunningPipelines := false
 		for pipelineName := range r.jobsByPipeline {
@@ -860,6 +875,7 @@ func (r *PipelineRunner) Shutdown(ctx context.Context) error {
 				WithField("component", "runner").
 				Warnf("Forced shutdown, cancelling all jobs")
 
+			verifhook.Yield("Shutdown.force", r)
 			r.mx.Lock()
 
 			for jobID := range r.jobsByID {
@@ -926,6 +942,7 @@ func (r *PipelineRunner) requestPersist() {
 }
 
 func (r *PipelineRunner) CancelJob(id uuid.UUID) error {
+	verifhook.Yield("CancelJob", r, id)
 	r.mx.Lock()
 	defer r.mx.Unlock()
 
@@ -980,6 +997,7 @@ func (r *PipelineRunner) cancelJobInternal(id uuid.UUID) error {
 
 	r.wg.Add(1)
 	go (func() {
+		verifhook.Yield("cancel.go", r, id)
 		cancelFunc()
 		r.wg.Done()
 	})()
@@ -988,6 +1006,7 @@ func (r *PipelineRunner) cancelJobInternal(id uuid.UUID) error {
 }
 
 func (r *PipelineRunner) StartDelayedJob(id uuid.UUID) {
+	verifhook.Yield("StartDelayedJob", r, id)
 	r.mx.Lock()
 	defer r.mx.Unlock()
 
@@ -1017,6 +1036,7 @@ func (r *PipelineRunner) StartDelayedJob(id uuid.UUID) {
 // It can be used to update the definitions after the runner has been started
 // (e.g. by a file watcher or signal for configuration reload).
 func (r *PipelineRunner) ReplaceDefinitions(defs *definition.PipelinesDef) {
+	verifhook.Yield("ReplaceDefinitions", r)
 	r.mx.Lock()
 	defer r.mx.Unlock()
 
